@@ -63,12 +63,23 @@ def run_rules(pid: str, root: str):
 
 def apply_edits(root: str, v) -> dict | None:
     edits = {}
-    for rel, old, new in v["edits"]:
+    for ed in v["edits"]:
+        rel, old, new = ed[:3]
+        nth = ed[3] if len(ed) > 3 else None
         p = Path(root) / "src" / "cogent3" / rel
         text = edits.get(rel) or p.read_text()
-        if text.count(old) != 1:
-            return None  # stale: the source no longer has exactly this fragment
-        edits[rel] = text.replace(old, new)
+        if nth is None:
+            if text.count(old) != 1:
+                return None  # stale: the source no longer has exactly this fragment
+            edits[rel] = text.replace(old, new)
+        else:
+            # the nth (0-based) of several identical fragments
+            pos = -1
+            for _ in range(nth + 1):
+                pos = text.find(old, pos + 1)
+                if pos < 0:
+                    return None
+            edits[rel] = text[:pos] + new + text[pos + len(old):]
     for rel, text in edits.items():
         try:
             compile(text, rel, "exec")
